@@ -41,6 +41,7 @@ type faultSpec struct {
 	Occ  int    `json:"occ"`
 	Kind string `json:"kind"` // fail | hang | diebefore | dieafter | crashmgr | zkloss | zkfail
 	Errno int   `json:"errno,omitempty"`
+	Times int   `json:"times,omitempty"` // with Occ = 0: only the first Times occurrences (0 = every one)
 }
 
 type vScenario struct {
@@ -207,7 +208,10 @@ func (h *vHook) match(ch, stmt, at string, mut bool) *faultSpec {
 		return nil
 	}
 	if f.Occ == 0 {
-		return f // persistent fault: every occurrence
+		if f.Times > 0 && occ > f.Times {
+			return nil
+		}
+		return f // persistent fault: every occurrence (or the first Times ones), armed from the start
 	}
 	if h.fired || f.Occ != occ {
 		return nil
